@@ -7,7 +7,7 @@ From ClapModel Require Import Base.Bytes Base.Machine Base.Utf8.
 From ClapModel Require Import Parse.Cmd Parse.Build Parse.Valid Parse.Matcher Parse.Errors Parse.Validator Parse.Parser.
 From ClapModel Require Import ParseProofs.Unparse ParseProofs.UnparseTree ParseProofs.Actions.
 From ClapModel Require Import Derive.DeriveModel Derive.DeriveProofs Derive.DeriveCmd Derive.DeriveArgs Derive.DeriveParse
-                              Derive.DeriveAccept Derive.DerivePost Derive.DerivePostEx Derive.DeriveParseEx Derive.DeriveTotal.
+                              Derive.DeriveAccept Derive.DerivePost Derive.DerivePostEx Derive.DeriveParseEx Derive.DeriveFlat Derive.DeriveTotal.
 From Coq Require Import ZArith List Bool Lia.
 Import ListNotations.
 Open Scope N_scope.
@@ -66,3 +66,32 @@ Proof.
   - apply Hd. vm_compute. reflexivity.
 Qed.
 End TotalEx.
+
+(** flattened structs: [{ a: String, #[flatten] inner: { b: u8, c: bool }, #[flatten] opt: Option<{ e: Option<u8> }> }] *)
+Module FlatEx.
+Definition fa : field := mkField [97] SynPath TStr (KLong [97;97]) None None None None None false.
+Definition fb : field := mkField [98] SynPath TU8 (KLong [98;98]) None None None None None false.
+Definition fc : field := mkField [99] SynPath TBool (KLong [99;99]) None None None None None false.
+Definition fe : field := mkField [101] (SynOption SynPath) TU8 (KLong [101;101]) None None None None None false.
+Definition ns : nodes :=
+  NCons (NArg fa) (NCons (NFlatten false [73] (NCons (NArg fb) (NCons (NArg fc) NNil)))
+                  (NCons (NFlatten true [74] (NCons (NArg fe) NNil)) NNil)).
+Definition d : dinput := mkDinput b_prog [83] ns.
+Definition argv : list bytes := [b_prog; [45;45;98;98]; [51]; [45;45;97;97]; [120]].
+Lemma ex_flat : flat_nodes (d_nodes d) = true. Proof. reflexivity. Qed.
+Lemma ex_wf : wf_nodes (d_nodes d).
+Proof.
+  cbn. unfold disjoint. cbn.
+  repeat split; try exact I; try discriminate; intros; intuition (try discriminate; subst; try discriminate).
+Qed.
+Lemma ex_guarded : Forall guarded (leaves (d_nodes d)).
+Proof. repeat (apply Forall_cons || apply Forall_nil); [guarded_tac|guarded_tac|guarded_tac|guarded_np]. Qed.
+Lemma ex_valid : valid (with_bin (derive_cmd d) (hd [] argv)) = true. Proof. vm_compute. reflexivity. Qed.
+Theorem ex_parses : exists vs, derived_parse d argv = PValue vs.
+Proof.
+  apply (proj2 (parse_iff_command_flat d argv ex_flat ex_wf ex_guarded ex_valid)). eexists. vm_compute. reflexivity.
+Qed.
+Lemma ex_value : derived_parse d argv =
+  PValue [DOne (SvStr [120]); DStruct [DOne (SvInt 3); DOne (SvBool false)]; DOptStruct None].
+Proof. vm_compute. reflexivity. Qed.
+End FlatEx.
